@@ -203,8 +203,10 @@ FAIL_PAD_FORMS = ['shape-int', 'shape-int-between', 'shape', 'shape', 'shape-lis
 
 
 def strat_op(tier):
+    # reads of one, two or three coordinates in any order; reading exactly one member of a lazily built pair (x without y, r without t) is its own class
     read = st.fixed_dictionaries({'op': st.just('read'),
-                                  'which': st.lists(st.sampled_from(COORDS + ['r', 't']), min_size=1, max_size=3)})
+                                  'which': st.one_of(st.lists(st.sampled_from(COORDS + ['r', 't']), min_size=1, max_size=3),
+                                                     st.sampled_from([['x'], ['y'], ['r'], ['t'], ['x'], ['y']]))})
     inc = st.integers(0, 4)
     pad = st.fixed_dictionaries({'op': st.just('pad'),
                                  'form': st.sampled_from(['samples', 'samples-int', 'shape', 'shape-int']),
